@@ -74,6 +74,10 @@ fn tree_alphabet() -> Vec<Tx> {
 		vec![(0u8, Op::DerefTree(rk(1)))],
 		vec![(0u8, Op::DerefTree(rk(2)))],
 		vec![(0u8, Op::DerefTree(rk(3)))],
+		// four nodes of one size class: removing the tree puts several slots of one value table on the free list
+		// (their order matters when the list is rebuilt at open and the slots are taken again)
+		vec![(0u8, Op::InsertTree(rk(4), NodeSpec { data: B::pat(3, 40), children: (0..3).map(|i| ChildSpec::New(NodeSpec::leaf(B::pat(3, 41 + i)))).collect() }))],
+		vec![(0u8, Op::DerefTree(rk(4)))],
 	]
 }
 
